@@ -14,6 +14,8 @@ from ..probes import Clock, Models, Losses, make_names
 from ..harness import ImputerProxy
 from ..qnum import Q
 from ..refs import mean_out
+from fractions import Fraction
+
 from ..stats import CellTests, EPS, hoeffding_radius
 
 SHARDS = {"quick": 8, "thorough": 16}
@@ -679,6 +681,170 @@ def size_sweep_case(run, sizes, runs, seed):
 
 
 
+# ------------------------------------------------------------------------------------------------
+EXACT_CFGS = [
+    ("sage", "joint", 3, 3, 1), ("sage", "product", 3, 2, 1), ("sage", "joint", 2, 4, 2), ("sage", "product", 2, 3, 2),
+    ("sage", "joint", 4, 2, 1), ("pfi", "joint", 2, 5, 2), ("pfi", "product", 3, 3, 1), ("pfi-override", "joint", 2, 3, 2),
+    ("sage-override", "product", 2, 2, 2), ("batch", "joint", 3, 3, 1), ("batch", "product", 2, 4, 1), ("interval", "joint", 2, 2, 1),
+    ("interval", "product", 2, 3, 1), ("interval-update", "joint", 2, 2, 1), ("interval-update", "product", 2, 3, 1), ("original", None, 2, 3, 1), ("original", None, 3, 2, 1), ("original", None, 2, 2, 2),
+]
+
+
+def exact_case(run, idx, cfgspec, seed):
+    """The implementation's exact outcome law (all its draws enumerated with their weights) against the exact law implied by
+    uniform feature orders and uniform background rows: equality of two finite distributions over rationals."""
+    from ixai.explainer import IncrementalSage, IncrementalPFI, BatchSage, IntervalSage
+    from ixai.storage import BatchStorage, IntervalStorage
+    from ixai.imputer import MarginalImputer
+    from ..exactlaw import exact_law, Budget
+    kind, strat, d, m, n = cfgspec
+    override = kind.endswith("-override")
+    kind = kind.replace("-override", "")
+    names = make_names("str", d)
+    model = Models("multi" if kind in ("sage", "batch") else "scalar", names, exact=True)
+    loss = Losses("hash", exact=True)
+    rows = [{f: 1000 * (t + 1) + j for j, f in enumerate(names)} for t in range(m)]
+    ys = [t - 1 for t in range(m)]
+    x = {f: 900000 + j for j, f in enumerate(names)}
+    if idx % 4 == 1:
+        import collections
+        x = collections.Counter(x)           # observations may be dict subclasses (Counter.update() adds instead of replacing)
+    y = 7
+    tag = f"exact/{kind}{'(override)' if override else ''}/{strat}/d={d}/m={m}/n={n}"
+    if kind == "sage":
+        dist = chain_dist(names, x, y, rows, n, strat, model, loss, loss.one(y, normalize(model.one(x))))
+    elif kind == "pfi":
+        dist = pfi_dist(names, x, y, rows, n, model, loss)
+    elif kind == "batch":
+        dist = chain_dist(names, x, y, rows, n, strat, model, loss, loss.one(y, mean_out([model.one(x)])))
+    elif kind == "interval":
+        mp = mean_out([model.one(r) for r in rows])
+        dist = convolve_mean([chain_dist(names, r, yy, rows, n, strat, model, loss, loss.one(yy, mp)) for r, yy in zip(rows, ys)])
+    elif kind == "interval-update":
+        # the call stores (x, y) first: the explained window AND the background are the last m observations incl. the new one
+        win = rows[1:] + [x]
+        wys = ys[1:] + [y]
+        mp = mean_out([model.one(r) for r in win])
+        dist = convolve_mean([chain_dist(names, r, yy, win, n, strat, model, loss, loss.one(yy, mp)) for r, yy in zip(win, wys)])
+    else:
+        mp = mean_out([model.one(r) for r in rows])
+        dist = convolve_mean([original_obs_dist(names, r, yy, rows, n, model, loss, loss.one(yy, mp)) for r, yy in zip(rows, ys)])
+    random.seed(seed)
+    np.random.seed(seed)
+    if kind == "interval-update":
+        import copy
+        st = IntervalStorage(size=m, store_targets=True)
+        for r, yy in zip(rows, ys):
+            st.update(r, yy)
+        base = IntervalSage(model, names, loss, n_inner_samples=n, interval_length=1, storage_length=m, storage=st,
+                            imputer=MarginalImputer(model, strat, st))
+
+        def scen():
+            e2 = copy.deepcopy(base)
+            r = e2.explain_one(dict(x), y, verbose=False)          # update_storage=True (default) and due (interval 1)
+            return tuple(r[f] for f in names)
+    elif kind in ("sage", "pfi"):
+        st = BatchStorage(store_targets=False)
+        for r in rows:
+            st.update(r)
+        cls = IncrementalSage if kind == "sage" else IncrementalPFI
+        e = cls(model, loss, names, smoothing_alpha=1, storage=st, imputer=MarginalImputer(model, strat, st),
+                n_inner_samples=(1 if override else n), dynamic_setting=True)
+        e.explain_one({f: 5 + j for j, f in enumerate(names)}, 1, update_storage=False)
+        kwc = {"n_inner_samples": n} if override else {}
+
+        def scen():
+            r = e.explain_one(x, y, update_storage=False, **kwc)
+            return tuple(r[f] for f in names)
+    elif kind == "batch":
+        st = BatchStorage(store_targets=True)
+        for r, yy in zip(rows, ys):
+            st.update(r, yy)
+        e = BatchSage(model, names, loss, n_inner_samples=n, storage=st, imputer=MarginalImputer(model, strat, st))
+
+        def scen():
+            r = e.explain_many([x], [y], verbose=False)
+            return tuple(r[f] for f in names)
+    elif kind == "interval":
+        st = IntervalStorage(size=m, store_targets=True)
+        for r, yy in zip(rows[:-1], ys[:-1]):
+            st.update(r, yy)
+        e = IntervalSage(model, names, loss, n_inner_samples=n, interval_length=1, storage_length=m, storage=st,
+                         imputer=MarginalImputer(model, strat, st))
+        e.explain_one(rows[-1], ys[-1], verbose=False)
+
+        def scen():
+            r = e.explain_one(rows[-1], ys[-1], update_storage=False, force_explain=True, verbose=False)
+            return tuple(r[f] for f in names)
+    else:
+        e = BatchSage(model, names, loss, n_inner_samples=n)
+
+        def scen():
+            r = e.explain_many_original(rows, ys, verbose=False)
+            return tuple(r[f] for f in names)
+    try:
+        lawd, runs_x, fsites = exact_law(scen, max_runs=300000)
+    except Budget:
+        run.count("exact-law-budget-exceeded")
+        return
+    except TypeError as ex:
+        run.other_error(f"C15:{type(ex).__name__}:{str(ex)[:50]}")
+        return
+    run.ok(kind="exact-law:" + kind)
+    kind = "interval" if kind == "interval-update" else kind
+    run.count("exact-law-executions", runs_x)
+    run.notes[tag] = {"outcomes": len(dist), "executions_enumerated": runs_x, "float_draw_sites": fsites}
+    for o in lawd:
+        run.nontriv(("exactlaw", tag, tuple(str(v) for v in o)))
+    if fsites:
+        tol = Fraction(1, 10 ** 9)
+        same_law = set(lawd) == set(dist) and all(abs(lawd[o] - dist[o]) <= tol for o in dist)
+    else:
+        same_law = lawd == dict(dist)
+    if not same_law:
+        worst = max(set(lawd) | set(dist), key=lambda o: abs(lawd.get(o, 0) - dist.get(o, 0)))
+        run.violation(f"{'original-mode' if kind == 'original' else kind}:exact-outcome-law",
+                      f"{tag}: the implementation's exact outcome law differs from the law of uniform orders / uniform rows; e.g. outcome "
+                      f"{tuple(float(v) for v in worst)} has probability {lawd.get(worst, 0)} instead of {dist.get(worst, 0)} "
+                      f"({len(lawd)} vs {len(dist)} outcomes, {runs_x} executions enumerated)", {"config": cfgspec, "seed": seed})
+
+
+def exact_rows_case(run, sizes):
+    """Exact law of the row drawn by the marginal imputer for EVERY storage length in sizes."""
+    from ixai.storage import BatchStorage
+    from ixai.imputer import MarginalImputer
+    from ..exactlaw import exact_law, Budget
+    seen = []
+
+    def model(xx):
+        seen.append(xx)
+        return {"output": 0.0}
+    for m in sizes:
+        st = BatchStorage(store_targets=False)
+        for t in range(m):
+            st.update({"a": float(t), "b": float(t) + 0.5})
+        for strat in ("joint", "product"):
+            imp = MarginalImputer(model, strat, st)
+
+            def scen():
+                del seen[:]
+                imp.impute(["a", "b"] if strat == "joint" else ["a"], {"a": -1.0, "b": -2.0}, 1)
+                return int(seen[0]["a"])
+            try:
+                lawd, runs_x, _ = exact_law(scen, max_runs=50000)
+            except Budget:
+                run.count("exact-law-budget-exceeded")
+                continue
+            run.ok(kind="exact-law:rows")
+            run.count("exact-law-executions", runs_x)
+            if set(lawd) != set(range(m)) or any(abs(q - Fraction(1, m)) > Fraction(1, 10 ** 9) for q in lawd.values()):
+                bad = {r: float(lawd.get(r, 0)) for r in range(m) if abs(lawd.get(r, 0) - Fraction(1, m)) > Fraction(1, 10 ** 9)}
+                run.violation("imputer:exact-row-law", f"storage length {m} ({strat}): rows are drawn with exact probabilities {bad} "
+                                                       f"instead of 1/{m}", {"storage_length": m, "strategy": strat})
+            run.nontriv(("exact-rows", m, strat))
+
+
+
 def main(run):
     run.rule = ("(a) draw level: feature order and source row of every imputed feature decoded from the model inputs (unique "
                 "feature values) over R calls per configuration {IncrementalSage, IncrementalPFI, BatchSage.explain_many, "
@@ -712,7 +878,8 @@ def main(run):
                            grnd.choice([2, 3, 4, 6, 30, 300]), grnd.choice([1, 2, 3])))
     jobs = [("outcome", i, c) for i, c in enumerate(OUTCOME_CFGS + extra_out)] + [("draw", i, c) for i, c in enumerate(DRAW_CFGS + extra_draw)] \
         + [("order", i, c) for i, c in enumerate(ORDER_CFGS)] + [("moving", i, c) for i, c in enumerate(MOVING_CFGS)] \
-        + [("sizes", 0, list(range(1, 36))), ("sizes", 1, list(range(36, 71)) + [127, 128, 129, 255, 256, 257, 1025])]
+        + [("sizes", 0, list(range(1, 36))), ("sizes", 1, list(range(36, 71)) + [127, 128, 129, 255, 256, 257, 1025])] \
+        + [("exact", i, c) for i, c in enumerate(EXACT_CFGS)] + [("exact-rows", 0, list(range(1, 41))), ("exact-rows", 1, list(range(41, 81)) + [127, 128, 129, 255, 256, 257])]
     # every shard must touch every anchor: shards run a slice of jobs, coverage is merged by the parent
     for j, (what, i, c) in enumerate(jobs):
         if j % nsh != sh:
@@ -724,6 +891,10 @@ def main(run):
             order_case(run, i, c, R_ORDER[run.tier], seed)
         elif what == "moving":
             moving_case(run, i, c, R_MOVING[run.tier], seed)
+        elif what == "exact":
+            exact_case(run, i, c, seed)
+        elif what == "exact-rows":
+            exact_rows_case(run, c)
         elif what == "sizes":
             size_sweep_case(run, c, 3000 if run.tier == "quick" else 40000, seed)
         else:
